@@ -656,6 +656,105 @@ func firstMessageOfPrefixLength(id string, seed uint64) runner.Result {
 	return res
 }
 
+// stackedMuxes: one multiplexer runs on the default listener of another (prefix lengths n1 and n2 in
+// every order of size). Connections that match a route of the outer, a route of the inner, or nothing
+// are delivered by the right listener; what the inner default listener hands out is the client's byte
+// stream from its first byte.
+func stackedMuxes(id string, seed uint64) runner.Result {
+	r := &payload.SplitMix{S: seed}
+	n1, n2 := []int{1, 4, 8}[r.Intn(3)], []int{1, 4, 8}[r.Intn(3)]
+	base := newBase()
+	outer := drpcmigrate.NewListenMux(base, n1)
+	ctx, cancel := context.WithCancel(context.Background())
+	defer cancel()
+	outerRoute := outer.Route(string(bytes.Repeat([]byte{'O'}, n1)))
+	inner := drpcmigrate.NewListenMux(outer.Default(), n2)
+	innerRoute := inner.Route(string(bytes.Repeat([]byte{'I'}, n2)))
+	rig.Go("outer.Run", func() (interface{}, error) { return nil, outer.Run(ctx) })
+	rig.Go("inner.Run", func() (interface{}, error) { return nil, inner.Run(ctx) })
+	var mu sync.Mutex
+	got := map[string][]byte{}
+	readSize := []int{512, 3, 1}[r.Intn(3)]
+	accept := func(name string, l net.Listener) {
+		rig.Go("accept:"+name, func() (interface{}, error) {
+			for {
+				c, err := l.Accept()
+				if err != nil {
+					return nil, err
+				}
+				rig.Go("read:"+name, func() (interface{}, error) {
+					data, _ := readAllSmall(c, []int{readSize})
+					mu.Lock()
+					got[name+"/"+c.LocalAddr().String()] = data
+					mu.Unlock()
+					census.Bump()
+					return nil, nil
+				})
+			}
+		})
+	}
+	accept("outer-route", outerRoute)
+	accept("inner-route", innerRoute)
+	accept("inner-default", inner.Default())
+	type conn struct {
+		role, want string
+		sent, exp  []byte
+	}
+	var conns []conn
+	for i := 0; i < 3+r.Intn(4); i++ {
+		pl := payload.Make(uint64(i), 0, 0, 0, 5+r.Intn(40))
+		role := fmt.Sprintf("srv%d", i)
+		switch r.Intn(3) {
+		case 0:
+			pre := bytes.Repeat([]byte{'O'}, n1)
+			conns = append(conns, conn{role, "outer-route", append(pre, pl...), pl})
+		case 1:
+			pre := bytes.Repeat([]byte{'I'}, n2)
+			if n1 <= n2 && n1 > 0 && pre[0] == 'O' {
+				continue
+			}
+			conns = append(conns, conn{role, "inner-route", append(pre, pl...), pl})
+		default:
+			all := append(bytes.Repeat([]byte{'x'}, n1), append(bytes.Repeat([]byte{'y'}, n2), pl...)...)
+			conns = append(conns, conn{role, "inner-default", all, all})
+		}
+	}
+	for _, c := range conns {
+		pair := simnet.New(simnet.Opts{Cap: -1})
+		pair.B.Role = c.role
+		base.ch <- pair.B
+		cut := r.Intn(len(c.sent) + 1)
+		pair.A.Write(c.sent[:cut])
+		if r.Intn(2) == 0 {
+			census.Quiesce(rig.Watchdog)
+		}
+		pair.A.Write(c.sent[cut:])
+		pair.A.Close()
+	}
+	census.Quiesce(rig.Watchdog)
+	desc := fmt.Sprintf("an inner multiplexer (prefix %d) on the default listener of an outer one (prefix %d), %d connections", n2, n1, len(conns))
+	var fails []string
+	mu.Lock()
+	for _, c := range conns {
+		data, ok := got[c.want+"/"+c.role]
+		switch {
+		case !ok:
+			fails = append(fails, fmt.Sprintf("the connection that sent %q... was not delivered by %s", clip(c.sent), c.want))
+		case !bytes.Equal(data, c.exp):
+			fails = append(fails, fmt.Sprintf("%s handed out %d bytes %q..., want %d bytes %q... (the client sent %q...)", c.want, len(data), clip(data), len(c.exp), clip(c.exp), clip(c.sent)))
+		}
+	}
+	mu.Unlock()
+	cancel()
+	census.Quiesce(rig.Watchdog)
+	if len(fails) > 0 {
+		return runner.Violation(id, "mux:stacked:"+keyOf(fails[0]), desc+"\n"+strings.Join(fails, "\n"))
+	}
+	res := runner.Hold(id, desc, len(conns) > 0)
+	res.Events = int64(len(conns))
+	return res
+}
+
 // registeredBefore reports whether the route for the client's prefix was
 // registered before the client connection was handed to the base listener.
 func registeredBefore(steps []string, c *client) bool {
@@ -1018,6 +1117,10 @@ func gen(tier string, seed uint64) []runner.Scenario {
 		out = append(out, runner.Scenario{ID: id, Run: func() runner.Result { return muxScenario(id, payload.Hash(seed, 0x16, uint64(i))) }})
 		id2 := fmt.Sprintf("header/%d", i)
 		out = append(out, runner.Scenario{ID: id2, Run: func() runner.Result { return headerScenario(id2, payload.Hash(seed, 0x161, uint64(i))) }})
+		if i%15 == 0 {
+			id6 := fmt.Sprintf("stacked-muxes/%d", i)
+			out = append(out, runner.Scenario{ID: id6, Run: func() runner.Result { return stackedMuxes(id6, payload.Hash(seed, 0x166, uint64(i))) }})
+		}
 		if i%20 == 0 {
 			id5 := fmt.Sprintf("first-message-of-prefix-length/%d", i)
 			out = append(out, runner.Scenario{ID: id5, Run: func() runner.Result { return firstMessageOfPrefixLength(id5, payload.Hash(seed, 0x165, uint64(i))) }})
